@@ -200,9 +200,85 @@ def main():
                     pass
             sub.explore('rfc6979/reads%d' % nreads, h, mode='bv')
         return task
+    def t_rfc6979_scrub(nreads):
+        """same, but the caller reuses ONE buffer and overwrites it between reads: the generator must not keep state in
+        caller-owned memory"""
+        def task(sub):
+            def h(ctx):
+                m = mk(ctx)
+                x = [tm.var('x_%d' % i, 64) for i in range(4)]
+                e = [tm.var('e_%d' % i, 64) for i in range(4)]
+                Xv, Ev = tm.lift(cat_limbs(x), 256), tm.lift(cat_limbs(e), 256)
+                ctx.assume(in_range(Xv))
+                ctx.assume(tm.ult(Ev, N_ORDER, 256))
+                xb, eb = stubs.bytes_of_term(Xv, 32), stubs.bytes_of_term(Ev, 32)
+                drbg = m.call(SECEC + 'newDrbgRFC6979', [X.Ptr(scalar_obj(m, x), ()), X.Ptr(scalar_obj(m, e), ())])
+
+                def HM(key, parts):
+                    return stubs.H('hmac_sha256_key%d' % len(key), [key] + parts)
+                V, K = [1] * 32, [0] * 32
+                K = HM(K, [V, [0], xb, eb])
+                V = HM(K, [V])
+                K = HM(K, [V, [1], xb, eb])
+                V = HM(K, [V])
+                buf = m.new_byte_slice(sym_bytes('pre', 32), 'buf')
+                from engine.builtins_go import _elem_ptr
+                for j in range(nreads):
+                    if j > 0:
+                        K = HM(K, [V, [0]])
+                        V = HM(K, [V])
+                    V = HM(K, [V])
+                    n, err = m.invoke(drbg, 'Read', [buf])
+                    ctx.check(tm.eq(cat_bytes(m.slice_elems(buf)), cat_bytes(V), 256), 'bv:candidate-%d=RFC6979-T-despite-caller-scrubbing-its-buffer' % (j + 1))
+                    for i in range(32):                        # the caller wipes / reuses its buffer
+                        m.store(_elem_ptr(buf, i), tm.var('scrub%d_%d' % (j, i), 8))
+                sub.note_machine(m)
+            sub.explore('rfc6979/scrubbed-buffer-reads%d' % nreads, h, mode='bv')
+        return task
+
+    def t_rfc6979_sampler(sub):
+        """the real sampler over the real generator: the nonce is the first RFC 6979 candidate in [1,n)"""
+        def h(ctx):
+            m = mk(ctx)
+            x = [tm.var('x_%d' % i, 64) for i in range(4)]
+            e = [tm.var('e_%d' % i, 64) for i in range(4)]
+            Xv, Ev = tm.lift(cat_limbs(x), 256), tm.lift(cat_limbs(e), 256)
+            ctx.assume(in_range(Xv))
+            ctx.assume(tm.ult(Ev, N_ORDER, 256))
+            xb, eb = stubs.bytes_of_term(Xv, 32), stubs.bytes_of_term(Ev, 32)
+            drbg = m.call(SECEC + 'newDrbgRFC6979', [X.Ptr(scalar_obj(m, x), ()), X.Ptr(scalar_obj(m, e), ())])
+
+            def HM(key, parts):
+                return stubs.H('hmac_sha256_key%d' % len(key), [key] + parts)
+            V, K = [1] * 32, [0] * 32
+            K = HM(K, [V, [0], xb, eb])
+            V = HM(K, [V])
+            K = HM(K, [V, [1], xb, eb])
+            V = HM(K, [V])
+            T = []
+            for j in range(8):
+                if j > 0:
+                    K = HM(K, [V, [0]])
+                    V = HM(K, [V])
+                V = HM(K, [V])
+                T.append(tm.lift(cat_bytes(V), 256))
+            # bound: the first two candidates may be rejected, the third is in range (deeper rejection chains: sampler/* obligations)
+            ctx.assume(in_range(T[2]))
+            s, err = m.call(SECEC + 'sampleRandomScalar', [drbg])
+            sub.note_machine(m)
+            ctx.check(err is None, 'a-nonce-is-found')
+            if err is None:
+                want = tm.ite(in_range(T[0]), T[0], tm.ite(in_range(T[1]), T[1], T[2], 256), 256)
+                ctx.check(tm.eq(scalar_val(m, s), want, 256), 'bv:nonce=first-RFC6979-candidate-in-[1,n)')
+            return 'ok'
+        paths = sub.explore('rfc6979/sampler-over-generator', h, mode='bv')
+        sub.add('rfc6979/sampler-over-generator/witness-3-paths', [], len([p for p in paths if p.outcome == 'ok']) >= 3)
     if not only or 'rfc' in only:
         for n in range(1, (9 if chk.thorough else 5)):
             tasks.append(('rfc6979/%d' % n, t_rfc6979(n)))
+        for n in ((2, 3, 4) if chk.thorough else (3,)):
+            tasks.append(('rfc6979-scrub/%d' % n, t_rfc6979_scrub(n)))
+        tasks.append(('rfc6979-sampler', t_rfc6979_sampler))
         chk.bounds.append('drbgRFC6979: all x in [1,n), all e in [0,n); candidate sequences of 1..%d successive reads compared term by term with RFC 6979 section 3.2 (d-h)' % (8 if chk.thorough else 4))
         chk.outside.append('statistical uniformity of the XOF/HMAC output; more than %d successive reads' % (8 if chk.thorough else 4))
 
